@@ -121,6 +121,10 @@ theorem keeps_declareAllM : ∀ (ps : List (Nat × MTy)) (g : MGamma), Keeps (de
     exact keeps_declareAllM rest g'
 
 
+theorem keeps_getMethod (t : MTy) (m : Nat) : Keeps (getMethod t m) := by
+  unfold getMethod
+  repeat' keeps_step
+
 mutual
 theorem keepsE (env : Env) (e : Expr) (hc : coreE e = true) : ∀ cx g, Keeps (infer env cx g e) := by
   intro cx g
@@ -202,7 +206,18 @@ theorem keepsE (env : Env) (e : Expr) (hc : coreE e = true) : ∀ cx g, Keeps (i
     have ih2 := keepsArms env arms hc.2
     simp only [infer]
     repeat' (first | exact ih1 _ _ | exact ih2 _ _ _ _ | keeps_step)
-  | mcall _ _ _ | cassign _ _ _ _ _ | fstr _ => simp [coreE] at hc
+  | cassign op ic x p e =>
+    simp only [coreE, Bool.and_eq_true] at hc
+    have ih := keepsE env e hc.2
+    simp only [infer]
+    repeat' (first | exact keeps_binopWith env _ op (fun τ => by unfold pathAsExpr; repeat' keeps_step) (fun τ => ih _ _) | keeps_step)
+  | mcall e m args =>
+    simp only [coreE, Bool.and_eq_true] at hc
+    have ih1 := keepsE env e hc.1
+    have ih2 := keepsArgs env args hc.2
+    simp only [infer]
+    repeat' (first | exact ih1 _ _ | exact ih2 _ _ _ | exact keeps_getMethod _ _ | keeps_step)
+  | fstr _ => simp [coreE] at hc
 termination_by sizeOf e
 
 theorem keepsArms (env : Env) (arms : List Arm) (hc : coreA arms = true) :
